@@ -48,6 +48,17 @@ Theorem mutex_exclusion : forall (ps : list (list op)) (sched : list tid) t1 t2 
 Proof. exact (ThreadsProofs.mutex_exclusion_gen thr_clear_on_catch thr_trylock_busy_result (eq_refl false)). Qed.
 Print Assumptions mutex_exclusion.
 
+(* 5b. no lost update: a thread about to store the second half of a non-atomic `cell = cell + 1` still holds
+   the cell's mutex, the value it loaded is still current, and its store adds exactly one to the current value *)
+Theorem guarded_increment : forall (ps : list (list op)) (sched : list tid) t l s m k,
+  let g := M_run sched (ginit ps) in
+  nth_error (thr g) t = Some (l, s) -> code l = KStore m :: k ->
+  In m (holding s) /\ tmp s = cells g m /\
+  (aborted g = false -> started s = true -> done l = false -> fatal l = false -> ub s = false ->
+   cells (M_step t g) m = S (cells g m)).
+Proof. exact (ThreadsProofs.guarded_increment_gen thr_clear_on_catch thr_trylock_busy_result (eq_refl false)). Qed.
+Print Assumptions guarded_increment.
+
 (* 6. join returns only after the thread has finished *)
 Theorem join_waits : forall (ps : list (list op)) (sched : list tid) u lu su,
   nth_error (thr (M_run sched (ginit ps))) u = Some (lu, su) -> joined su = true -> done lu = true.
@@ -111,3 +122,8 @@ Example join_nonvacuous :
   exists lu su, nth_error (thr (M_run [0; 1; 1; 0] (ginit [[OSpawn 1; OJoin 1; OPeek 1]; [OEmit 7]]))) 1 = Some (lu, su)
                 /\ joined su = true /\ out lu = [EvExit []; EvEmit 7].
 Proof. vm_compute. do 2 eexists. split; [reflexivity | split; reflexivity]. Qed.
+
+Example increment_nonvacuous :
+  exists l s k, nth_error (thr (M_run [0; 1; 1] (ginit [[OSpawn 1; OLock 0; OIncr 0; OUnlock 0]; [OWith 0 [OIncr 0]]]))) 1 = Some (l, s)
+                /\ code l = KStore 0 :: k.
+Proof. vm_compute. do 3 eexists. split; reflexivity. Qed.
